@@ -55,6 +55,10 @@ def apply_variant(sources: Dict[str, str], v: dict) -> Optional[Dict[str, str]]:
     if v.get("global") == "reformat":
         # every file re-printed from its syntax tree: comments gone, layout and line numbers changed
         return {k: ast.unparse(ast.parse(t)) + "\n" for k, t in sources.items()}
+    if v.get("global") == "rename-locals":
+        from selftest.transforms import rename_module
+
+        return {k: rename_module(t) for k, t in sources.items()}
     out = dict(sources)
     for edit in v["edits"]:
         path = edit["file"]
@@ -137,6 +141,8 @@ def run_for(prop: str, seed: int = 0, jobs: int = 16) -> dict:
     variants = [v for v in VARIANTS if v["property"] == prop]
     variants.append({"property": prop, "id": "%s-reformat-all" % prop, "kind": "silent", "rule": None, "edits": [], "global": "reformat",
                      "note": "all sources re-printed by ast.unparse (layout, comments and line numbers change, behaviour does not)"})
+    variants.append({"property": prop, "id": "%s-rename-all-locals" % prop, "kind": "silent", "rule": None, "edits": [], "global": "rename-locals",
+                     "note": "every function-local variable of every function without closures renamed (<name>_rn)"})
     try:
         baseline = violations_of(prop, sources)
     except AnalysisError:
